@@ -53,7 +53,7 @@ def run(ctx):
         if r in (0, 1):
             g = G(rng, hostile=rng.choice((0.0, 0.1, 0.3)))
             m = g.calendar()
-            ctx.check(("wellformed", prov, m), "wellformed-G3")
+            ctx.check(("wellformed", prov, m, rng.choice((None, rng.randrange(10 ** 6)))), "wellformed-G3")
         elif r == 2:
             g = G(rng, hostile=rng.choice((0.0, 0.2)))
             text = emit(g.calendar()).encode("utf-8")
@@ -158,8 +158,9 @@ def classify_unstable(prov, s1, o0, o1):
 
 
 def check_wellformed(ctx, case):
-    _, prov, model = case
-    text = emit(model)
+    import random
+    _, prov, model, inter = case
+    text = emit(model, random.Random(inter) if inter is not None else None)
     ctx.nontrivial(count_props(model) >= 5)
     try:
         want = refparse.parse(text, prov)
